@@ -3,7 +3,7 @@ CONSTANTS
   MaxLen = 3
   Srcs = {"ready_val", "after_val", "run_val", "sched_val", "task_val", "lcontract_val"}
   Atts = {"inline", "e1", "inh"}
-  Args = {"V", "R"}
+  Args = {"V", "R", "X"}
   Behs = {"val", "throw", "res_val", "fut_ready", "fut_pending", "shared_ready", "shared_pending", "task_make", "task_sched", "task_contract", "task_sched_then"}
   Rejects = {9}
   Starts = {"to_future", "detach"}
